@@ -80,6 +80,36 @@ def check_config(cfg, acc):
                               fields={**base_fields, "method": "dh_dmom=dh2_dmom"},
                               kind="sum_rule", observed=vals["dh_dmom"],
                               expected=vals["dh2_dmom"], state=si)
+    # the same methods on a RE-USED state: evaluate everything at (q0, p0), then move the state to
+    # (q1, p0) and to (q1, p1) by assignment and compare with the references at the new point
+    if len(sts) >= 2:
+        (q0, p0), (q1, p1) = sts[0], sts[1]
+        state = zoo.mk_state(q0, p0)
+        meths = ("h1", "h2", "h", "dh1_dpos", "dh2_dpos", "dh2_dmom", "dh_dpos", "dh_dmom")
+        try:
+            for m in meths:
+                getattr(S, m)(state)
+            for (qa, pa, label) in ((q1, p0, "after_pos_assignment"),
+                                    (q1, p1, "after_mom_assignment")):
+                if label == "after_pos_assignment":
+                    state.pos = np.array(qa)
+                else:
+                    state.mom = np.array(pa)
+                fresh = zoo.mk_state(qa, pa)
+                for m in meths:
+                    acc.count("evaluations")
+                    got = np.asarray(getattr(S, m)(state), dtype=float)
+                    want = np.asarray(getattr(S, m)(fresh), dtype=float)
+                    if not close(got, want, 1e-12, 1e-12):
+                        acc.violation(driver="lattice", config=cfg,
+                                      fields={**base_fields, "method": m, "reuse": label},
+                                      kind="value_differs_on_reused_state", observed=got,
+                                      expected=want)
+        except Exception as e:  # noqa: BLE001
+            acc.violation(driver="lattice", config=cfg,
+                          fields={**base_fields, "method": "reuse",
+                                  "exception": type(e).__name__},
+                          kind="exception", observed=repr(e)[:300], expected="values")
     acc.count("cases")
     if len(acc.samples) < 3:
         acc.sample({"config": cfg, "state0": [sts[0][0], sts[0][1]]})
